@@ -181,6 +181,52 @@ def _consumer(repo, rep):
               "strict is the default", construct="default")
 
 
+def deferred_error_untouched(repo, rep, rule="R19.2"):
+    """'the same ExpressionError, with the same location': between catching
+    the error and pickling it nothing is stored into it (its arguments, its
+    token) -- what is raised later is what strict mode raises now"""
+    f = repo.func(ET + "__call__")
+    hs = [h for n in ast.walk(f.node) if isinstance(n, ast.Try)
+          for h in n.handlers if h.type is not None
+          and "ExpressionError" in src(h.type)]
+    if len(hs) != 1 or not hs[0].name:
+        rep.check(False, rule, f.qualname, "exactly one handler catches "
+                  "ExpressionError (and nothing else) around the "
+                  "translation of an expression",
+                  construct="deferred-error-untouched", where=L.where(f),
+                  detail="%d handler(s) of ExpressionError" % len(hs))
+        return
+    name = hs[0].name
+    stores = []
+    for n in ast.walk(hs[0]):
+        tgts = []
+        if isinstance(n, ast.Assign):
+            tgts = n.targets
+        elif isinstance(n, (ast.AugAssign, ast.AnnAssign)):
+            tgts = [n.target]
+        elif isinstance(n, ast.Delete):
+            tgts = n.targets
+        for t in tgts:
+            for x in ast.walk(t):
+                if isinstance(x, (ast.Attribute, ast.Subscript)) and any(
+                        isinstance(y, ast.Name) and y.id == name
+                        for y in ast.walk(x.value)):
+                    stores.append(n)
+        if isinstance(n, ast.Call) and src(n.func) in (
+                "setattr", "delattr", "object.__setattr__") and n.args and \
+                src(n.args[0]) == name:
+            stores.append(n)
+    dumped = [n for n in ast.walk(hs[0]) if isinstance(n, ast.Call)
+              and src(n.func).endswith("dumps") and n.args]
+    same = len(dumped) == 1 and src(dumped[0].args[0]) == name
+    rep.check(same and not stores, rule, f.qualname, "the caught "
+              "ExpressionError is pickled as it is: nothing is stored into "
+              "it (arguments, token, source) before pickle.dumps(%s)" % name,
+              construct="deferred-error-untouched",
+              where=L.where(f, stores[0].lineno) if stores else L.where(f),
+              detail="; ".join(src(n)[:70] for n in stores[:3]))
+
+
 def _deferred(repo, rep):
     f = repo.func(ET + "__call__")
     site = f.qualname
@@ -239,6 +285,7 @@ def _deferred(repo, rep):
     rep.check("p = pickle.dumps(exc, -1)" in t, "R19.2", site,
               "the error that strict mode would raise is the one pickled",
               construct="dumps", where=wh)
+    deferred_error_untouched(repo, rep)
     ls = repo.cls(COMP + "ExpressionTransform").attrs.get("loads_symbol")
     rep.check(ls is not None and src(ls) == "Symbol(pickle.loads)", "R19.2",
               COMP + "ExpressionTransform.loads_symbol",
